@@ -12,10 +12,9 @@
      Tie codes (2, 5) are given only INSIDE the scope the model is claimed for:
           given_e d && frag_f d,  and the model did not run out of fuel (a loop between the sources of reference groups:
           valid, elaborated by the implementation since fixes/C01F-1, declined by the model - Props/C02F.v:C02F_ex_loop).
-     One documented difference of the rejecting PASS is not a tie break: a port that is no-connected and referred to only INSIDE a
-     slice / concatenation.  The model (C01F: module_portrefs holds every reference) fails in ResolvePortRefs (handle_noconn);
-     the implementation's group is [port, NoConn] - the Slice, not the PortRef, carries the connected port - so handle_noconn lets it
-     pass, the PortRef is never resolved and SliceResolver ("Unresolved reference") or ConnTypes raises.  Both reject.
+     (Before fixes/C02F-1 a port that is no-connected and referred to only INSIDE a slice / concatenation passed handle_noconn in the
+     implementation - the Slice, not the PortRef, carries the connected port - and the design was rejected later by accident, or, when
+     a slice dropped the part, not at all.  The model always failed in ResolvePortRefs: module_portrefs holds every reference.)
    chk_c02f = code * 10000 + stage * 100 + (in C02F scope) * 10 + (in C02E scope: given_e && frag_e).
 
    Bundle cases (c02fb_case): verdict only (to_proto).  code 0 agree; 1 the implementation returned a package for a design the
@@ -47,8 +46,6 @@ Definition where_ok2 (s : stage2) (r : result package) (w : string) : bool :=
   match s with
   | SBuild => false                              (* only the constructors refuse there: "build" *)
   | SOf SExport => String.eqb w "export"
-  | SOf SPortRefs => String.eqb w "ResolvePortRefs" ||
-                     (is_enoconn r && (String.eqb w "SliceResolver" || String.eqb w "ConnTypes"))     (* see the header *)
   | SOf s' => String.eqb w (stage_pass s')
   end.
 
